@@ -425,6 +425,35 @@ func c03History(r *rand.Rand, start map[string]any, nsteps int, script func(step
 			fail = append(fail, fmt.Sprintf("after step %d (%s): AsMap(doc) != plain tree", len(steps), st.desc))
 			break
 		}
+		// Lookup agrees with the plain tree about what is where — also below what was just removed or overwritten, where a
+		// member of the same name may exist one level up
+		if r != nil {
+			for probe := 0; probe < 2; probe++ {
+				p := genPathStr(r)
+				if probe == 1 {
+					if ep, ok := existingPath(r, ref, false); ok {
+						p = ep + "." + c03Keys[r.Intn(4)]
+					}
+				}
+				outOfDomain = false
+				want, wok := plookup(ref, parsePPath(p))
+				if outOfDomain {
+					continue
+				}
+				got := d.Lookup(p)
+				if wok != (got != nil) {
+					fail = append(fail, fmt.Sprintf("after step %d (%s): Lookup(%s) finds something=%v, the plain tree has something there=%v", len(steps), st.desc, p, got != nil, wok))
+					break
+				}
+				if wok && !reflect.DeepEqual(nodeToAny(got), want) {
+					fail = append(fail, fmt.Sprintf("after step %d (%s): Lookup(%s) is not what the plain tree holds there", len(steps), st.desc, p))
+					break
+				}
+			}
+			if len(fail) > 0 {
+				break
+			}
+		}
 		if strings.Contains(st.desc, ".") || strings.Contains(st.desc, "[") {
 			prefixRelated++
 		}
